@@ -5,6 +5,7 @@ CONSTANTS
     GrantPathOrder <- MCGrantAbs
     OptOrder <- MCOptOrder
     MaxGranted = 3
+    ChainOnly = FALSE
     AdminMaxGranted = 1
     MaxSegs = 4
     RelPathOrder <- MCRelPaths
